@@ -571,3 +571,48 @@ def conformance_get_units(payload):
             where.setdefault(i, []).append(k)
     cats = {i: c for i, c in zip(third.geographic_unit_fips, third.unit_category)}
     return {"where": where, "categories": cats}
+
+
+def gaussian_cascade_replay(key="county_fips"):
+    """REAL GaussianModel.fit at a two-level aggregate, recursive calls recorded through a subclass: the call at the
+    same level must receive exactly the calibration / reporting / outstanding rows of the groups holding at least
+    T = min(10, #calibration) calibration units (a group of exactly T units is large enough); the call one level
+    up gets everything."""
+    import numpy as np
+    import pandas as pd
+
+    from elexmodel.distributions.GaussianModel import GaussianModel
+
+    sizes = {"g10": 10, "g03": 3, "g25": 25, "g11": 11, "g00": 0}
+    rows = []
+    i = 0
+    for g, n in sizes.items():
+        for _ in range(n):
+            rows.append({"postal_code": "AA", key: g, "geographic_unit_fips": f"u{i}", "last_election_results_turnout": 100 + i, "lower_bounds": -0.1 + 0.001 * i, "upper_bounds": 0.1 + 0.002 * i})
+            i += 1
+    cal = pd.DataFrame(rows)
+    non = pd.DataFrame([{"postal_code": "AA", key: g, "geographic_unit_fips": f"n{j}{k}", "last_election_results_turnout": 50} for j, g in enumerate(sizes) for k in range(2)])
+    rep = cal.copy()
+    calls = []
+
+    class Rec(GaussianModel):
+        def fit(self, conformalization_data, reporting_units, nonreporting_units, estimand, aggregate=[], **kw):
+            calls.append((list(aggregate), sorted(conformalization_data.geographic_unit_fips), sorted(reporting_units.geographic_unit_fips), sorted(nonreporting_units.geographic_unit_fips), kw.get("top_level", True)))
+            return super().fit(conformalization_data, reporting_units, nonreporting_units, estimand, aggregate=aggregate, **kw)
+
+    out = {"exc": None}
+    try:
+        Rec({"beta": 1, "winsorize": False, "save_conformalization": False}).fit(cal, rep, non, "turnout", aggregate=["postal_code", key], alpha=0.9)
+    except Exception as e:  # noqa
+        out["exc"] = f"{type(e).__name__}: {e}"
+        out["ok"] = False
+        return out
+    T = min(10, len(cal))
+    big = {g for g, n in sizes.items() if n >= T}
+    want_cal = sorted(cal[cal[key].isin(big)].geographic_unit_fips)
+    want_non = sorted(non[non[key].isin(big)].geographic_unit_fips)
+    second = [c for c in calls[1:] if c[0] == ["postal_code", key]]
+    parent = [c for c in calls[1:] if c[0] == ["postal_code"]]
+    out["calls"] = [(c[0], len(c[1]), len(c[2]), len(c[3])) for c in calls]
+    out["ok"] = bool(second and parent and second[0][1] == want_cal and second[0][2] == want_cal and second[0][3] == want_non and parent[0][1] == sorted(cal.geographic_unit_fips) and parent[0][3] == sorted(non.geographic_unit_fips))
+    return out
